@@ -230,6 +230,9 @@ func c19Replay(c *core.Ctx, payload json.RawMessage) {
 	if os.Getenv("C19_CHILD") != "" {
 		return
 	}
+	if c19CliReplay(c, payload) {
+		return
+	}
 	var cs c19Case
 	if err := json.Unmarshal(payload, &cs); err != nil {
 		fmt.Println("bad payload:", err)
